@@ -134,7 +134,7 @@ Section Model.
 
   (** what the handle and the renderer can see *)
   Inductive obs :=
-  | OPos (position : T)                      (* handle.position() after on_start_processing *)
+  | OPos (position : T) (state : Z)          (* handle.position(), handle.state() after on_start_processing *)
          (index : Z) (fraction : T) (avail : Z)    (* ghost: the frame index and fraction it was computed from; ring entries (streaming) *)
   | OOut (frames : list A) (state : Z) (finished : bool).   (* one process call: output, handle.state(), Sound::finished() *)
 
@@ -164,7 +164,7 @@ Section Model.
     let pos := ndiv (nofZ idx) (nofZ (s_sr (x_core x))) in
     let h := shell_read_commands (x_shell x) c in
     ({| x_core := set_rate A (set_shpos A (x_core x) pos) (h_rate h); x_shell := h |},
-     OPos pos idx (s_fpos (x_core x)) 0).
+     OPos pos (h_mirror h) idx (s_fpos (x_core x)) 0).
 
   (** [Sound::process]: the per-frame loop is C04's [frames_loop] (with the two amplitude factors left out: they
       are applied by [gains], which does not touch the state) *)
@@ -259,8 +259,9 @@ Section Model.
     let pos := y_position y in
     let y := {| y_sr := y_sr y; y_ring := y_ring y; y_reached_end := y_reached_end y; y_err := y_err y;
                 y_cur := y_cur y; y_fpos := y_fpos y; y_pos := pos; y_ended := y_ended y |} in
-    ({| z_core := y; z_shell := shell_read_commands (z_shell z) c |},
-     OPos pos (y_cur y) (y_fpos y) (Z.of_nat (length (y_ring y)))).
+    let h := shell_read_commands (z_shell z) c in
+    ({| z_core := y; z_shell := h |},
+     OPos pos (h_mirror h) (y_cur y) (y_fpos y) (Z.of_nat (length (y_ring y)))).
 
   (** [Sound::process]; ghost result: starved (see [y_frame_step]; the gap rule counts) *)
   Definition stream_process (z : stream_sound) (len : Z) (dt : T) (i : info T) : outcome (stream_sound * obs * bool) :=
